@@ -123,6 +123,7 @@ Record CI (x : list N) (s : cstate) : Prop := {
 (* side conditions on the regenerated constants *)
 Lemma gran_pos : 0 < gran.
 Proof. unfold gran. change 0 with (N.to_nat 0). apply Nat.compare_lt_iff. rewrite <- N2Nat.inj_compare. reflexivity. Qed.
+Global Opaque gran.
 Lemma copy_slots_eq : copy_out_slots = copy_total_out_slots.
 Proof. reflexivity. Qed.
 Lemma copy_in_pos : 0 < copy_in_slots.
@@ -155,3 +156,331 @@ Arguments ci_done {x s} _.
 Arguments ci_wdone {x s} _.
 Arguments ci_short {x s} _.
 Arguments ci_reof {x s} _.
+
+Ltac csimp :=
+  cbn [k_force k_stdout k_main k_started k_eof k_in k_out k_rest k_frag k_rd k_outq k_wr k_written k_finish k_raised k_taken
+       set_main set_started set_keof set_in set_out set_rest set_frag set_krd set_outq set_kwr set_kwritten set_kfinish
+       set_raised set_taken] in *.
+
+Lemma copy_unlock_fields (s : cstate) :
+  (k_out s + Z.of_nat (holders s) = Z.of_nat copy_out_slots)%Z ->
+  copy_unlock s = set_raised (k_raised s + b2n (k_eof s && (holders s =? 0))) s.
+Proof.
+  intros H. unfold copy_unlock. rewrite (raise_cond_spec s H).
+  destruct (k_eof s && (holders s =? 0)); cbn [b2n].
+  - f_equal. lia.
+  - rewrite Nat.add_0_r. destruct s; reflexivity.
+Qed.
+
+Ltac cfin := intros; try discriminate; try congruence; try lia; try solve [eauto];
+  try solve [intuition (try discriminate; try congruence; try lia; eauto)].
+
+Ltac cprep :=
+  unfold holders in *; csimp;
+  repeat match goal with
+         | E : k_rd _ = _ |- _ => rewrite E in *; clear E
+         | E : k_wr _ = _ |- _ => rewrite E in *; clear E
+         | E : k_main _ = _ |- _ => rewrite E in *; clear E
+         | E : k_started _ = _ |- _ => rewrite E in *; clear E
+         end;
+  cbn [rdbuf crd_in crd_outh cwr_in cwr_outh rd_is_done started_pc copying_pc length app concat b2n] in *.
+
+Opaque sniff_size copy_hdr_len.
+Lemma ci_step x s e s' : CI x s -> cstep s e = Some s' -> CI x s'.
+Proof.
+  intros I H.
+  pose proof (ci_data I) as Idata. pose proof (ci_pre I) as Ipre. pose proof (ci_started I) as Ist.
+  pose proof (ci_in I) as Iin. pose proof (ci_out I) as Iout. pose proof (ci_eof I) as Ieof.
+  pose proof (ci_raised I) as Irai. pose proof (ci_taken I) as Itak. pose proof (ci_le I) as Ile.
+  pose proof (ci_finish I) as Ifin. pose proof (ci_joinr I) as Ijr. pose proof (ci_done I) as Idn.
+  pose proof (ci_wdone I) as Iwd. pose proof (ci_short I) as Ish. pose proof (ci_reof I) as Ire.
+  clear I.
+  destruct e as [i| | |]; cbn [cstep] in H; [discriminate| | |].
+  - (* reader *)
+    unfold creader_step in H. destruct (k_started s) eqn:St; [|discriminate]. cbn [negb] in H.
+    specialize (Iin eq_refl). specialize (Iout eq_refl). specialize (Ieof eq_refl). specialize (Irai eq_refl).
+    destruct (k_rd s) as [| |buf short|buf short| |] eqn:Er.
+    + (* idle *) destruct (k_in s) eqn:Ein; [discriminate|]. injection H as <-.
+      constructor; cprep; cfin.
+    + (* read *)
+      destruct (xread_fills _ gran (k_frag s) (k_rest s) []) as [fr E]. rewrite E in H. cbn [app] in H.
+      destruct (firstn gran (k_rest s)) as [|a got] eqn:Eg; injection H as <-.
+      * assert (k_rest s = []).
+        { destruct (k_rest s); auto. pose proof gran_pos. destruct gran; [lia|discriminate]. }
+        assert (Hs : skipn gran (k_rest s) = []) by (rewrite H; apply skipn_nil).
+        rewrite Hs.
+        constructor; cprep; rewrite ?H in *; rewrite ?app_nil_r in *; cfin.
+      * assert (Hnz : a :: got <> []) by discriminate.
+        assert (Hsh : negb (gran - length (a :: got) =? 0) = true -> skipn gran (k_rest s) = []).
+        { intros Hs. apply negb_true_iff, Nat.eqb_neq in Hs. apply skipn_all2.
+          destruct (Nat.le_gt_cases (length (k_rest s)) gran); auto.
+          assert (length (firstn gran (k_rest s)) = gran) by (apply firstn_length_le; lia).
+          rewrite Eg in H0. lia. }
+        assert (Hd : (a :: got) ++ skipn gran (k_rest s) = k_rest s) by (rewrite <- Eg; apply firstn_skipn).
+        constructor; cprep; cfin.
+        all: try solve [ rewrite <- Idata by auto; rewrite <- Hd at 2; rewrite <- !app_assoc; reflexivity ].
+        all: try solve [ destruct H as [H|H]; [injection H as <- <-; split; auto|discriminate H] ].
+    + (* deliver: out_slots--, unlock *)
+      injection H as <-.
+      rewrite copy_unlock_fields.
+      2:{ unfold holders in *. csimp. rewrite Er in Iout. cbn [crd_outh] in *. lia. }
+      constructor; cprep; cfin.
+      all: try solve [ destruct (Ish _ _ (or_introl eq_refl)); cfin ].
+      all: try solve [ destruct H as [H|H]; [discriminate|injection H as <- <-]; apply (Ish _ _ (or_introl eq_refl)) ].
+      all: try solve [ rewrite Irai, Ieof; cbn; lia ].
+    + (* push *)
+      injection H as <-.
+      destruct (Ish _ _ (or_intror eq_refl)) as [Hb Hs].
+      assert (Hnd : k_wr s <> CWDone).
+      { intros Hw. destruct (Iwd Hw) as [F _]. rewrite Ifin in F.
+        destruct (k_main s); try discriminate F; [assert (Z : CRPush buf short = CRDone) by (apply Ijr; auto)
+                                                 |assert (Z : CRPush buf short = CRDone) by (apply Ijr; auto)]; discriminate Z. }
+      destruct short; constructor; cprep; rewrite ?app_length, ?concat_app in *; cbn [length concat app] in *; cfin.
+      all: try solve [ rewrite <- Idata by auto; rewrite app_nil_r, <- !app_assoc; reflexivity ].
+      all: try solve [ rewrite Irai; do 3 f_equal; lia ].
+    + (* eof *)
+      injection H as <-.
+      rewrite copy_unlock_fields.
+      2:{ unfold holders in *. csimp. rewrite Er in Iout. cbn [crd_outh] in *. lia. }
+      constructor; cprep; cfin.
+      all: try solve [ rewrite Irai, Ieof; cbn; lia ].
+    + discriminate.
+  - (* writer *)
+    unfold cwriter_step in H. destruct (k_started s) eqn:St; [|discriminate]. cbn [negb] in H.
+    specialize (Iin eq_refl). specialize (Iout eq_refl). specialize (Ieof eq_refl). specialize (Irai eq_refl).
+    destruct (k_wr s) as [|buf| |] eqn:Ew.
+    + destruct (k_outq s) as [|buf q] eqn:Eq.
+      * destruct (k_finish s) eqn:Ef; [|discriminate]. injection H as <-.
+        constructor; cprep; rewrite ?Eq in *; cbn [length concat app] in *; cfin.
+        all: try solve [ rewrite Irai; do 3 f_equal; lia ].
+      * injection H as <-.
+        constructor; cprep; rewrite ?Eq in *; cbn [length concat app] in *; cfin.
+        all: try solve [ rewrite Irai; do 3 f_equal; lia ].
+        all: try solve [ rewrite <- Idata by auto; rewrite <- !app_assoc; reflexivity ].
+    + injection H as <-.
+      constructor; cprep; cfin.
+      all: try solve [ rewrite Irai; do 3 f_equal; lia ].
+    + injection H as <-.
+      rewrite copy_unlock_fields.
+      2:{ unfold holders in *. csimp. rewrite Ew in Iout. cbn [cwr_outh] in *. lia. }
+      constructor; cprep; cfin.
+      all: try solve [ rewrite Irai; do 3 f_equal; lia ].
+      all: try solve [ rewrite Irai;
+                       replace (crd_outh (k_rd s) + length (k_outq s) + 1 =? 0) with false
+                         by (symmetry; apply Nat.eqb_neq; lia);
+                       rewrite andb_false_r; reflexivity ].
+    + discriminate.
+  - (* main *)
+    unfold main_step in H. destruct (k_main s) eqn:Em.
+    + (* sniff *)
+      assert (St : k_started s = false) by (rewrite Ist; rewrite ?Em; reflexivity).
+      destruct (Ipre St) as (P1 & P2 & P3 & P4 & P5). destruct (P5 eq_refl) as [P6 P7].
+      destruct (xread_fills _ sniff_size (k_frag s) (k_rest s) []) as [fr E]. rewrite E in H. cbn [app] in H.
+      destruct (is_magic _ _); [|destruct (fallback_cond _ _)]; injection H as <-.
+      * constructor; cprep; cfin.
+      * assert (Hh : firstn (copy_hdr_len (sniff_size - length (firstn sniff_size (k_rest s))))
+                            (firstn sniff_size (k_rest s) ++ repeat garbage sniff_size) = firstn sniff_size (k_rest s)).
+        { rewrite hdr_len_ok by lia.
+          pose proof (firstn_le_length sniff_size (k_rest s)) as Hl.
+          replace (sniff_size - (sniff_size - length (firstn sniff_size (k_rest s))))
+            with (length (firstn sniff_size (k_rest s)) + 0) by lia.
+          rewrite firstn_app_2. cbn. apply app_nil_r. }
+        rewrite Hh.
+        constructor; cprep; rewrite ?P2, ?P7 in *; cbn [app concat] in *; cfin.
+        all: try solve [ rewrite <- P6; apply firstn_skipn ].
+      * constructor; cprep; cfin.
+    + discriminate.
+    + discriminate.
+    + (* copy(): init_io *)
+      injection H as <-.
+      assert (St : k_started s = false) by (rewrite Ist; rewrite ?Em; reflexivity).
+      destruct (Ipre St) as (P1 & P2 & P3 & P4 & P5).
+      constructor; cprep; rewrite ?P2, ?P4 in *; cbn [length app concat] in *; cfin.
+    + (* halt *)
+      destruct (k_taken s <? k_raised s) eqn:Lt; [|discriminate]. injection H as <-. apply Nat.ltb_lt in Lt.
+      constructor; cprep; cfin.
+    + (* join reader *)
+      destruct (k_rd s) eqn:Er; try discriminate. injection H as <-.
+      constructor; cprep; cfin.
+    + (* join writer *)
+      destruct (k_wr s) eqn:Ew; try discriminate. injection H as <-.
+      constructor; cprep; cfin.
+    + discriminate.
+Qed.
+
+Transparent sniff_size copy_hdr_len.
+Lemma ci_init f o x frag : CI x (cinit f o x frag).
+Proof. constructor; cbn; cfin. Qed.
+
+Lemma creach_ci f o x frag s : CReach (cinit f o x frag) s -> CI x s.
+Proof. intros R; induction R; [apply ci_init|eapply ci_step; eauto]. Qed.
+Arguments creach_ci {f o x frag s} _.
+
+(* the test work() makes on the first (up to) four bytes *)
+Definition is_magic_input (x : list N) : bool :=
+  is_magic (sniff_size - length (firstn sniff_size x)) (be32 (firstn sniff_size x)).
+
+Lemma short_not_magic x : length x < sniff_size -> is_magic_input x = false.
+Proof.
+  intros H. unfold is_magic_input, is_magic. rewrite firstn_all2 by lia.
+  destruct (N.eqb_spec (N.of_nat (sniff_size - length x)) 0); [lia|reflexivity].
+Qed.
+
+(* "BZh" followed by a digit 1-9 *)
+Lemma magic_input_spec x : Forall (fun b => (b < 256)%N) x ->
+  (is_magic_input x = true <->
+   exists d rest, x = 66%N :: 90%N :: 104%N :: d :: rest /\ (49 <= d <= 57)%N).
+Proof.
+  intros B. unfold is_magic_input, is_magic, MAGIC, sniff_size.
+  destruct x as [|a [|b [|c [|d rest]]]]; cbn [firstn length be32 Nat.sub].
+  1-4: split; [intros H; cbn in H; discriminate|intros (d' & r & E & _); discriminate].
+  inversion B as [|? ? Ba B1]; subst. inversion B1 as [|? ? Bb B2]; subst.
+  inversion B2 as [|? ? Bc B3]; subst. inversion B3 as [|? ? Bd B4]; subst.
+  cbn [N.of_nat N.eqb andb]. rewrite andb_true_iff, !N.leb_le. split.
+  - intros [H1 H2]. exists d, rest.
+    assert (a = 66 /\ b = 90 /\ c = 104 /\ 49 <= d <= 57)%N by lia.
+    destruct H as (-> & -> & -> & H). auto.
+  - intros (d' & r & E & H). injection E as -> -> -> -> ->. lia.
+Qed.
+
+(* with -f and standard output, a non-magic input takes the copy path *)
+Lemma copy_path x frag s : is_magic_input x = false -> fallback_cond true true = true ->
+  CReach (cinit true true x frag) s -> k_main s <> MDecompress /\ k_main s <> MFail /\ k_force s = true /\ k_stdout s = true.
+Proof.
+  intros NM FB R. induction R as [|s e s' R IH H].
+  - cbn. repeat split; discriminate.
+  - destruct IH as (I1 & I2 & I3 & I4). pose proof (creach_ci R) as I.
+    destruct e as [i| | |]; cbn [cstep] in H; [discriminate| | |].
+    + unfold creader_step in H. destruct (negb (k_started s)); [discriminate|].
+      destruct (k_rd s); try discriminate.
+      * destruct (k_in s); [discriminate|]. injection H as <-. cbn. auto.
+      * destruct (xread gran (k_frag s) (k_rest s) []) as [[[g v] fr] r]. destruct g; injection H as <-; cbn; auto.
+      * injection H as <-. unfold copy_unlock. destruct (copy_raise_cond _); cbn; auto.
+      * injection H as <-. cbn; auto.
+      * injection H as <-. unfold copy_unlock. destruct (copy_raise_cond _); cbn; auto.
+    + unfold cwriter_step in H. destruct (negb (k_started s)); [discriminate|].
+      destruct (k_wr s); try discriminate.
+      * destruct (k_outq s); [destruct (k_finish s); [|discriminate]|]; injection H as <-; cbn; auto.
+      * injection H as <-. cbn; auto.
+      * injection H as <-. unfold copy_unlock. destruct (copy_raise_cond _); cbn; auto.
+    + unfold main_step in H. destruct (k_main s) eqn:Em; try discriminate.
+      * assert (St : k_started s = false) by (rewrite (ci_started I), Em; reflexivity).
+        destruct (ci_pre I St) as (_ & _ & _ & _ & P5). destruct (P5 Em) as [P6 _].
+        destruct (xread_fills _ sniff_size (k_frag s) (k_rest s) []) as [fr E]. rewrite E in H. cbn [app] in H.
+        rewrite P6 in H. unfold is_magic_input in NM. rewrite NM in H. rewrite I3, I4, FB in H.
+        injection H as <-. cbn. repeat split; auto; discriminate.
+      * injection H as <-. cbn. repeat split; auto; discriminate.
+      * destruct (k_taken s <? k_raised s); [|discriminate]. injection H as <-. cbn. repeat split; auto; discriminate.
+      * destruct (k_rd s); try discriminate. injection H as <-. cbn. repeat split; auto; discriminate.
+      * destruct (k_wr s); try discriminate. injection H as <-. cbn. repeat split; auto; discriminate.
+Qed.
+
+(* C19_copy / C19_usr2_once *)
+Theorem copy_correct f o x frag s : CReach (cinit f o x frag) s -> k_main s = MDone ->
+  k_written s = x /\ exit_of s = Exit0 /\ k_raised s = 1.
+Proof.
+  intros R D. pose proof (creach_ci R) as I.
+  assert (St : k_started s = true) by (rewrite (ci_started I), D; reflexivity).
+  pose proof (ci_joinr I (or_intror D)) as Er. pose proof (ci_done I D) as Ew.
+  destruct (ci_wdone I Ew) as [_ Eq]. pose proof (ci_reof I (or_intror Er)) as Erest.
+  pose proof (ci_data I) as Hd. rewrite D in Hd. specialize (Hd eq_refl).
+  rewrite Eq, Er, Erest in Hd. cbn in Hd. rewrite app_nil_r in Hd.
+  pose proof (ci_raised I St) as Hr. rewrite (ci_eof I St), Er in Hr. unfold holders in Hr.
+  rewrite Er, Ew, Eq in Hr. cbn in Hr.
+  pose proof (ci_taken I) as Ht. rewrite D in Ht.
+  unfold exit_of. rewrite D, Hr, Ht. auto.
+Qed.
+
+Theorem usr2_at_most_once f o x frag s : CReach (cinit f o x frag) s -> k_raised s <= 1.
+Proof.
+  intros R. pose proof (creach_ci R) as I. destruct (k_started s) eqn:St.
+  - rewrite (ci_raised I St). destruct (_ && _); cbn; lia.
+  - destruct (ci_pre I St) as (_ & _ & _ & -> & _). lia.
+Qed.
+
+(* C19_progress: no reachable state is stuck before the exit *)
+Theorem copy_progress f o x frag s : CReach (cinit f o x frag) s -> cfinal s = false ->
+  exists e s', cstep s e = Some s'.
+Proof.
+  intros R NF. pose proof (creach_ci R) as I.
+  pose proof (ci_started I) as Ist. pose proof (ci_taken I) as Itak. pose proof (ci_finish I) as Ifin.
+  assert (Rd : k_started s = true -> k_rd s <> CRDone -> (k_rd s = CRIdle -> 0 < k_in s) -> exists s', cstep s TR = Some s').
+  { intros St N Hin. cbn [cstep]. unfold creader_step. rewrite St. cbn [negb].
+    destruct (k_rd s) eqn:Er; try congruence; try (eexists; reflexivity).
+    - destruct (k_in s); [specialize (Hin eq_refl); lia|eexists; reflexivity].
+    - destruct (xread gran (k_frag s) (k_rest s) []) as [[[g v] fr] r]. destruct g; eexists; reflexivity. }
+  destruct (k_main s) eqn:Em; unfold cfinal in NF; rewrite Em in NF; try discriminate.
+  - (* sniff *) exists TM. cbn [cstep]. unfold main_step. rewrite Em.
+    destruct (xread sniff_size (k_frag s) (k_rest s) []) as [[[g v] fr] r].
+    destruct (is_magic v (be32 g)); [|destruct (fallback_cond _ _)]; eexists; reflexivity.
+  - exists TM. cbn [cstep]. unfold main_step. rewrite Em. eexists; reflexivity.
+  - (* halt *)
+    assert (St : k_started s = true) by (rewrite Ist; rewrite ?Em; reflexivity).
+    pose proof (ci_raised I St) as Hr. pose proof (ci_eof I St) as He. pose proof (ci_in I St) as Hin.
+    try rewrite Em in Itak; try rewrite Em in Ifin.
+    destruct (k_taken s <? k_raised s) eqn:Lt.
+    + exists TM. cbn [cstep]. unfold main_step. rewrite Em, Lt. eexists; reflexivity.
+    + apply Nat.ltb_ge in Lt. assert (Hr0 : k_raised s = 0) by lia. rewrite Hr0 in Hr.
+      assert (Wr : (k_outq s <> [] \/ (exists b, k_wr s = CWHold b) \/ k_wr s = CWRel) -> exists s', cstep s TS = Some s').
+      { intros Hw. cbn [cstep]. unfold cwriter_step. rewrite St. cbn [negb].
+        destruct (k_wr s) eqn:Ew.
+        - destruct (k_outq s) eqn:Eq; [|eexists; reflexivity].
+          destruct Hw as [Hw|[[b Hw]|Hw]]; congruence.
+        - eexists; reflexivity.
+        - eexists; reflexivity.
+        - exfalso. destruct (ci_wdone I Ew) as [F _]. congruence. }
+      destruct (k_rd s) eqn:Er.
+      * (* idle *)
+        destruct (k_in s) eqn:Ein.
+        -- exists TS. apply Wr. cbn [crd_in] in Hin. pose proof copy_in_pos.
+           destruct (k_outq s); [|left; discriminate]. right.
+           destruct (k_wr s); cbn in Hin; try lia. left; eexists; reflexivity.
+        -- exists TR. apply Rd; auto; try congruence. intros _. lia.
+      * exists TR. apply Rd; auto; congruence.
+      * exists TR. apply Rd; auto; congruence.
+      * exists TR. apply Rd; auto; congruence.
+      * exists TR. apply Rd; auto; congruence.
+      * (* reader done: something is still on its way to the writer *)
+        rewrite He in Hr. cbn [rd_is_done andb] in Hr. unfold holders in Hr. rewrite Er in Hr. cbn [crd_outh] in Hr.
+        exists TS. apply Wr.
+        destruct (k_outq s); [|left; discriminate]. right.
+        destruct (k_wr s) eqn:Ew; cbn in Hr; try discriminate.
+        -- left; eexists; reflexivity.
+        -- right; reflexivity.
+  - (* join reader *)
+    assert (St : k_started s = true) by (rewrite Ist; rewrite ?Em; reflexivity).
+    pose proof (ci_raised I St) as Hr. pose proof (ci_eof I St) as He. pose proof (ci_le I) as Hle.
+    try rewrite Em in Itak. rewrite Itak in Hle.
+    destruct (k_eof s) eqn:Ee; [|cbn in Hr; lia].
+    exists TM. cbn [cstep]. unfold main_step. rewrite Em.
+    destruct (k_rd s); cbn in He; try discriminate. eexists; reflexivity.
+  - (* join writer *)
+    assert (St : k_started s = true) by (rewrite Ist; rewrite ?Em; reflexivity).
+    pose proof (ci_raised I St) as Hr. pose proof (ci_le I) as Hle.
+    try rewrite Em in Itak; try rewrite Em in Ifin. rewrite Itak in Hle.
+    destruct (k_eof s && (holders s =? 0)) eqn:Eh; [|cbn in Hr; lia].
+    apply andb_true_iff in Eh. destruct Eh as [_ Eh]. apply Nat.eqb_eq in Eh. unfold holders in Eh.
+    destruct (k_wr s) eqn:Ew; cbn in Eh; try lia.
+    + exists TS. cbn [cstep]. unfold cwriter_step. rewrite St, Ew. cbn [negb].
+      destruct (k_outq s); [|cbn in Eh; lia]. rewrite Ifin. eexists; reflexivity.
+    + exists TM. cbn [cstep]. unfold main_step. rewrite Em, Ew. eexists; reflexivity.
+Qed.
+
+(* an input that starts with a bzip2 header is handed to the decompressor whatever
+   -f and the output are: same bytes consumed, nothing written *)
+Theorem magic_path f o x frag : is_magic_input x = true ->
+  exists s', cstep (cinit f o x frag) TM = Some s' /\ k_main s' = MDecompress /\
+             k_rest s' = skipn sniff_size x /\ k_written s' = [].
+Proof.
+  intros M. cbn [cstep]. unfold main_step. cbn [k_main cinit k_frag k_rest].
+  destruct (xread_fills _ sniff_size frag x []) as [fr E]. rewrite E. cbn [app].
+  unfold is_magic_input in M. rewrite M. eexists. split; [reflexivity|]. cbn. auto.
+Qed.
+
+Theorem nonmagic_without_force o x frag : is_magic_input x = false ->
+  exists s', cstep (cinit false o x frag) TM = Some s' /\ k_main s' = MFail.
+Proof.
+  intros M. cbn [cstep]. unfold main_step. cbn [k_main cinit k_frag k_rest k_force k_stdout].
+  destruct (xread_fills _ sniff_size frag x []) as [fr E]. rewrite E. cbn [app].
+  unfold is_magic_input in M. rewrite M. cbn. eexists. split; reflexivity.
+Qed.
